@@ -122,6 +122,18 @@ def operator_trees(mb: ModelBuilder, op: str) -> list[tuple[str, AObj]]:
             (f"chain4_{op}", n(o(op), n(o(op), n(o(op), n("A"), n("B")), n("C")), n("A")))]
 
 
+def operator_pairs(mb: ModelBuilder, op1: str, ops: Iterable[str]) -> list[tuple[str, AObj]]:
+    """Thorough tier: op1 over every other operator on either side, and under a negation."""
+    n, o = mb.node, mb.op
+    out = []
+    for op2 in ops:
+        out.append((f"{op1}_over_{op2}_left", n(o(op1), n(o(op2), n("A"), n("B")), n("C"))))
+        out.append((f"{op1}_over_{op2}_right", n(o(op1), n("A"), n(o(op2), n("B"), n("C")))))
+    out.append((f"not_{op1}", n(o("NOT"), n(o(op1), n("A"), n("B")))))
+    out.append((f"{op1}_of_nots", n(o(op1), n(o("NOT"), n("A")), n(o("NOT"), n(o("NOT"), n("B"))))))
+    return out
+
+
 POSITIONS = ("Root", "Mand", "Opt", "OrHost", "or1", "AltHost", "alt2", "Deep")
 
 
@@ -239,6 +251,23 @@ class Codec:
                 continue
             decorate(target[0])
             self.report(rule, f"{key}-at:{pos}", self.roundtrip(m), f"{what} on the feature in position {pos}", owns)
+
+    def thorough_pairs(self, mb: ModelBuilder, ops: Iterable[str], rule: str = "VOC",
+                       model_of: Optional[Callable[[list[tuple[str, AObj]]], AObj]] = None) -> None:
+        ops = list(ops)
+        for op1 in ops:
+            trees = operator_pairs(mb, op1, ops)
+            m = model_of(trees) if model_of else ctc_model(mb, trees)
+            self.report(rule, f"operator-pairs:{op1}", self.roundtrip(m),
+                        f"{op1} over / under every other operator", ("constraint", "constraint-count"))
+
+    def thorough_kind_pairs(self, mb: ModelBuilder, reps: list[D], rule: str = "KIND",
+                            model_of: Optional[Callable[[list[D]], AObj]] = None) -> None:
+        import itertools
+        for a, b in itertools.product(reps, repeat=2):
+            m = model_of([a, b]) if model_of else kind_model(mb, [a, b])
+            self.report(rule, f"kind-pair:{kind(a)}:{a}+{kind(b)}:{b}", self.roundtrip(m),
+                        f"relations {a} and {b} under one parent", ("relation", "parent", "name"))
 
     def finish_unowned(self) -> None:
         for c, t in sorted(self.unowned.items()):
